@@ -51,6 +51,7 @@ from .. import PyRatesException
 
 # external _imports
 from typing import Optional, Dict, List, Union, Tuple, Callable, Iterable
+import inspect
 import numpy as np
 import os, sys, importlib, hashlib, types as _types
 from shutil import rmtree
@@ -590,7 +591,14 @@ class BaseBackend(CodeGen):
         decorator = kwargs.pop('decorator', None)
         if decorator:
             decorator_kwargs = kwargs.pop('decorator_kwargs', dict())
+            rhs_plain = rhs_eval
             rhs_eval = decorator(rhs_eval, **decorator_kwargs)
+            # keep the generated function reachable for introspection (argument names), as functools.wraps does
+            if rhs_eval is not rhs_plain and not hasattr(rhs_eval, '__wrapped__'):
+                try:
+                    rhs_eval.__wrapped__ = rhs_plain
+                except (AttributeError, TypeError):
+                    pass
         return rhs_eval
 
     def run(self, func: Callable, func_args: tuple, T: float, dt: float, dts: float, solver: str, **kwargs) -> tuple:
@@ -759,7 +767,13 @@ class BaseBackend(CodeGen):
 
         # ring buffers of delayed edges (arguments named `<var>_buffer...`, a reserved name) are advanced inside the
         # generated function: they have to advance once per step, not once per evaluation
-        arg_names = getattr(getattr(func, '__code__', None), 'co_varnames', ())[2:2 + len(args)]
+        # (a decorated function is looked through: the names are those of the generated function)
+        try:
+            func_plain = inspect.unwrap(func)
+        except ValueError:
+            func_plain = func
+        func_plain = getattr(func_plain, 'py_func', func_plain)
+        arg_names = getattr(getattr(func_plain, '__code__', None), 'co_varnames', ())[2:2 + len(args)]
         buffers = [arg for name, arg in zip(arg_names, args)
                    if '_buffer' in name and '_buffered' not in name and hasattr(arg, 'shape')]
 
